@@ -82,6 +82,7 @@ func showTargets(ts []tgt) string {
 
 func C06(c *core.Ctx) {
 	c.Explanation("C06: findClosest and findClosestN (with rearrangeCatchment) are interpreted on every target stream up to a bounded length whose distances and completeness scores range over small sets including an undefined (NaN) distance; the three distance functions are replaced by a table look-up so that only the selection logic is evaluated. Because that logic touches distances and scores only through comparisons, these streams realise every ordering pattern of that many targets. The result must be the first K targets within D of the order: defined before undefined distance, ascending distance, descending completeness, file position. Also decided: the sort is a stable sort, the measure string dispatches to the right distance function, results are stored by query index, each target is fanned out to every query from one goroutine, and the completeness table equals 12/|base set|.")
+	checkUndefinedDistance(c, "R9")
 	ev0 := newEval(c)
 	tabs := extractTables(c, ev0, "R0")
 	if !tabs.OK {
@@ -377,5 +378,55 @@ func checkMeasureDispatch(c *core.Ctx, rule string) {
 		} else {
 			c.Und(rule+"/"+name+"/measure-dispatch", token.NoPos, "UNRESOLVED anchor closest.%s", name)
 		}
+	}
+}
+
+// checkUndefinedDistance (C06, C07): when query and target share no jointly resolved site, raw and tn93 have no
+// value; the functions must return NaN (which the selection code ranks after every defined distance), not 0 or
+// any other number. Concrete evaluation on short records: all-N target, all-gap target, and a target resolved only
+// where the query is not.
+func checkUndefinedDistance(c *core.Ctx, rule string) {
+	tabs := extractTables(c, newEval(c), rule+"/tables")
+	recT := namedType(c, "pkg/fastaio", "EncodedFastaRecord")
+	if !tabs.OK || recT == nil {
+		return
+	}
+	mk := func(id, seq string) *eval.StructVal {
+		r := absValue(recT, id, eval.K(int64(len(seq)))).(*eval.StructVal)
+		r.F["ID"] = eval.S(id)
+		r.F["Description"] = eval.S(id)
+		r.F["Idx"] = eval.K(0)
+		r.F["Score"] = eval.K(0)
+		vs := make([]eval.Value, len(seq))
+		cnt := map[byte]int64{}
+		for i := 0; i < len(seq); i++ {
+			vs[i] = eval.K(tabs.Soft[seq[i]])
+			cnt[seq[i]]++
+		}
+		r.F["Seq"] = eval.NewSlice(vs...)
+		r.F["Count_A"], r.F["Count_C"], r.F["Count_G"], r.F["Count_T"] = eval.K(cnt['A']), eval.K(cnt['C']), eval.K(cnt['G']), eval.K(cnt['T'])
+		return r
+	}
+	for _, fname := range []string{"rawDistance", "tn93Distance"} {
+		fn := c.LookupFunc("pkg/closest", fname)
+		key := rule + "/" + fname + "/undefined-without-a-jointly-resolved-site"
+		if fn == nil {
+			c.Und(key, token.NoPos, "UNRESOLVED anchor closest.%s", fname)
+			continue
+		}
+		var bad []string
+		for _, pr := range [][2]string{{"ACGTAC", "NNNNNN"}, {"ACGTAC", "------"}, {"ACGNNN", "NNNTAC"}, {"NNNNNN", "ACGTAC"}, {"ACRYAC", "NNACNN"}} {
+			v, err := newEval(c).CallFunc(fn, mk("q", pr[0]), mk("t", pr[1]))
+			if err != nil {
+				c.Und(key, fn.Pos(), "cannot evaluate on %s / %s: %v", pr[0], pr[1], err)
+				bad = nil
+				break
+			}
+			f, ok := v.(*eval.FExpr)
+			if !ok || !f.IsConst() || !math.IsNaN(f.C) {
+				bad = append(bad, fmt.Sprintf("query %s target %s (no site where both are A/C/G/T): returns %s, want NaN (undefined)", pr[0], pr[1], eval.Show(v)))
+			}
+		}
+		c.Ob(key, len(bad) == 0, fn.Pos(), "%s", first(bad, 3))
 	}
 }
